@@ -539,6 +539,20 @@ def _collate(ctx, f, rel):
             measured.append(u(it))
             col.ob("G16", "S4", f"{where}::sizes[{n_sz}]<-unpadded-column", not padded and isinstance(it, ast.Name),
                    f"`{u(n)}` measures `{u(it)}` after padding (every size becomes the maximum)", rel, n.lineno, sample=u(n))
+            # what is measured is the number of ROWS of an entry (its extent along the axis that is padded), also for entries with
+            # further axes ((R, 3) token / start / end rows): the measure is evaluated for a (4, 3) and a (5,) entry
+            tv = comp.generators[0].target
+            if isinstance(tv, ast.Name):
+                from sa.teval import teval, frac_array
+                from sa.inteval import NotEvaluable as _NE
+                import numpy as _np
+                try:
+                    got_ = [teval(comp.elt, {tv.id: frac_array(_np.zeros(sh_).tolist())}) for sh_ in ((4, 3), (5,))]
+                    col.ob("G16", "S4", f"{where}::sizes[{n_sz}]-count-rows", [int(g_) for g_ in got_] == [4, 5],
+                           f"`{u(comp.elt)}` gives {[str(g_) for g_ in got_]} for entries of shape (4, 3) and (5,): the reported size must be the number of rows "
+                           f"(4 and 5) - cutting a padded row back to it must return the entry", rel, n.lineno, sample=u(comp.elt))
+                except (_NE, TypeError, ValueError) as e_:
+                    col.undecided(f"{where}: the size measure `{u(comp.elt)[:40]}` is outside the evaluated fragment ({e_})")
     col.floor(f"size_sites[{f.name}]", n_sz, 1)
     col.ob("G16", "S4", f"{where}::each-sizes-tensor-measures-its-own-column", len(set(measured)) == len(measured),
            f"sizes tensors measure the columns {measured}: two of them measure the same column", rel, f.line, sample=measured)
